@@ -12,8 +12,8 @@ def execReader (stream op : String) (a : List String) : String :=
     (String.intercalate " " (s!"n={ms.length}" :: ms.map fun m => toHexField (m.bytes cmap))).trimAscii.toString
   | "udpbuf", "run", [n, b] =>
     match Reader.udpParse cmap (unhex b) (parseNat n) with
-    | some m => s!"ok {toHexField (m.bytes cmap)}"
-    | none => "rejected"
+    | some m => s!"ok {toHexField (m.bytes cmap)} pool+2"
+    | none => "rejected pool+2"
   | _, _, _ => "bad-op"
 
 end Driver
